@@ -34,6 +34,16 @@ pub enum Policy {
     Script(Vec<(String, String)>, u64),
 }
 
+/// Forced-replay rule: a thread whose role starts with `block.0` and that is parked at a site starting with
+/// `block.1` is not eligible until some thread whose role starts with `until.0` has executed a site starting
+/// with `until.1` (counted from the moment the rule was installed).
+#[derive(Clone, Debug)]
+pub struct Rule {
+    pub block: (String, String),
+    pub until: (String, String),
+    pub satisfied: bool,
+}
+
 #[derive(Clone, Debug, PartialEq)]
 enum Status {
     Running,
@@ -65,6 +75,7 @@ struct State {
     decisions: Vec<(usize, String, usize)>, // (tid, site, number of parked candidates)
     /// per-role probability weights (PCT-like starvation of one role)
     starve: Option<String>,
+    rules: Vec<Rule>,
 }
 
 pub struct Sched {
@@ -113,12 +124,25 @@ impl Sched {
                 stop: false,
                 decisions: Vec::new(),
                 starve: None,
+                rules: Vec::new(),
             }),
             cv: Condvar::new(),
         });
         let c = s.clone();
         std::thread::Builder::new().name("sched-controller".into()).spawn(move || c.controller()).unwrap();
         s
+    }
+
+    pub fn add_rule(&self, block: (&str, &str), until: (&str, &str)) {
+        self.st.lock().unwrap().rules.push(Rule {
+            block: (block.0.to_string(), block.1.to_string()),
+            until: (until.0.to_string(), until.1.to_string()),
+            satisfied: false,
+        });
+    }
+
+    fn rule_blocked(st: &State, t: &TInfo) -> bool {
+        st.rules.iter().any(|r| !r.satisfied && t.role.starts_with(&r.block.0) && t.site.starts_with(&r.block.1))
     }
 
     pub fn starve(&self, role: Option<&str>) {
@@ -147,7 +171,12 @@ impl Sched {
             }
             if st.granted.is_none() && !st.in_op {
                 let now = Instant::now();
-                let parked: Vec<ThreadId> = st.threads.iter().filter(|(_, t)| t.status == Status::Parked).map(|(k, _)| *k).collect();
+                let parked: Vec<ThreadId> = st
+                    .threads
+                    .iter()
+                    .filter(|(_, t)| t.status == Status::Parked && !Self::rule_blocked(&st, t))
+                    .map(|(k, _)| *k)
+                    .collect();
                 if !parked.is_empty() {
                     let choice: Option<ThreadId> = match st.policy.clone() {
                         Policy::Free => parked.iter().min_by_key(|k| st.threads[k].parked_at).copied(),
@@ -229,6 +258,12 @@ impl Sched {
             t.status = Status::Running;
             (t.tid, t.role.clone())
         };
+        let site = if ev.site == "atomic" { format!("atomic.{}", ev.op) } else { ev.site.to_string() };
+        for r in st.rules.iter_mut() {
+            if !r.satisfied && role.starts_with(&r.until.0) && site.starts_with(&r.until.1) {
+                r.satisfied = true;
+            }
+        }
         st.log.push(Logged { seq, tid, role, ev: ev.clone(), user });
         st.in_op = false;
         st.last_change = Instant::now();
@@ -261,7 +296,7 @@ impl Sched {
         loop {
             {
                 let st = self.st.lock().unwrap();
-                let parked = st.threads.values().any(|t| t.status == Status::Parked);
+                let parked = st.threads.values().any(|t| t.status == Status::Parked && !Self::rule_blocked(&st, t));
                 if !parked && !st.in_op && st.granted.is_none() && Instant::now().duration_since(st.last_change) > quiet {
                     let n = st.seq;
                     drop(st);
